@@ -64,9 +64,13 @@ SRC_KINDS = ("deg", "merc", "ea", "utmz")
 UTM_ARGS = ("utm", "utm-n", "utm-s")
 
 
+# a second geographic CRS (other datum) whose area of use contains the location
+DEG2 = {"eu": 4258, "no": 4258, "au": 4283, "sa": 4674}  # ETRS89, GDA94, SIRGAS 2000
+
+
 def kind_epsg(kind, loc):
     _, _, utm, ea = LOCS[loc]
-    return {"deg": 4326, "merc": 3857, "ea": ea, "utmz": utm, "cea": 6933}[kind]
+    return {"deg": 4326, "merc": 3857, "ea": ea, "utmz": utm, "cea": 6933, "deg2": DEG2.get(loc)}[kind]
 
 
 _T = {}
@@ -121,10 +125,11 @@ def make_src(kind, loc, extent, shape, orient):
     lon, lat, _, _ = LOCS[loc]
     epsg = kind_epsg(kind, loc)
     ny, nx = shape
-    ext = EXTENT[extent][0 if epsg == 4326 else 1]
+    geographic = unit_class(epsg) == "degree"
+    ext = EXTENT[extent][0 if geographic else 1]
     p = ext / max(nx, ny)
-    if epsg == 4326:
-        cx, cy = lon, lat
+    if geographic:
+        cx, cy = lon, lat  # (the centre need not be the same point to the metre in another datum)
     else:
         cx, cy = fresh(4326, epsg).transform(lon, lat)
         cx, cy = float(round(cx)), float(round(cy))
@@ -396,9 +401,10 @@ def judge(r, S: Src, loc, dst_enc, req, aenc, tight, tol, g, what):
                    f"{what}: own CRS with default options returned {g!r}, not the source {S.gbox!r}")
             r.outcome = "own:default:changed"
             return
-        if g is S.gbox:
-            # non-default tol/tight/'same' but the source itself came back: the property's first sentence is
-            # about another CRS, the second about default options; recorded, nothing demanded
+        if g is S.gbox and mode in ("auto", "same") and aenc == "default":
+            # only tol / tight / 'same' differ from the defaults and the source itself came back: the property's
+            # first sentence is about another CRS, the second about default options; recorded, nothing demanded.
+            # With any other anchor, resolution or shape request every general clause below applies.
             r.outcome = f"own:returned-source:{mode}:{'tight' if tight else 'snap'}"
             return
         labels.append("own")
@@ -789,6 +795,14 @@ def gen_mirrored(tier):
                              DST4, reqs, ANCHOR3 if t else ("default",), TIGHT, (0.01,))
 
 
+def gen_geographic(tier):
+    """degree -> degree between different geographic CRSs (same units, another CRS)"""
+    t = tier == "thorough"
+    reqs = RES3 + ((("res", ("s", 2.5)), ("shape", 50)) if t else ())
+    return itertools.product(("cog",), ORIENT, ("deg", "deg2"), ("eu", "au", "no", "sa"), EXT2, ((48, 64),),
+                             ("deg", "deg2"), reqs, ANCHOR3 if t else ("default", "center"), TIGHT, (0.01,))
+
+
 def gen_api(tier):
     t = tier == "thorough"
     reqs = (("res", "auto"), ("res", "fit"), ("res", ("s", 2.5)), ("shape", (32, 32)), ("shape", 50))
@@ -832,6 +846,8 @@ def slices(tier):
         S("mirrored-sources", gen_mirrored, run_case,
           "axis-aligned sources with columns running east-west (mx), rows south-north (su) or both (r180) x targets x "
           "every request kind x tight"),
+        S("geographic-pairs", gen_geographic, run_case,
+          "EPSG:4326 <-> ETRS89 / GDA94 / SIRGAS 2000 (both degree based, different CRS) x request x anchor x tight"),
         S("entry-points", gen_api, run_case,
           "GeoBox.to_crs, every argument given explicitly, CRS object and integer EPSG as crs="),
         S("xarray", gen_xr, run_xr, "xr_zeros(src).odc.output_geobox(...)"),
@@ -855,7 +871,8 @@ def main(ctx):
                          "south-north; slice mirrored-sources)"],
         "source_shapes_max_all_pixels": [64, 64],
         "source_shapes_boundary_only_max": [2000, 1500] if t else [768, 1024],
-        "targets": ["EPSG:4326", "EPSG:3857", "EPSG:3035/3577/6933", "EPSG:326xx/327xx", "utm", "utm-n", "utm-s", "own"],
+        "targets": ["EPSG:4326", "EPSG:3857", "EPSG:3035/3577/6933", "EPSG:326xx/327xx", "utm", "utm-n", "utm-s", "own",
+                    "EPSG:4258/4283/4674 (geographic-pairs)"],
         "resolution": ["auto", "fit", "same"] + [repr(e[1]) for e in (EXPL_T if t else EXPL_Q)],
         "anchor": [repr(a) for a in (ANCHOR_T if t else ANCHOR3)],
         "tight": [False, True],
@@ -886,7 +903,8 @@ def main(ctx):
         "the statement gives no number",
         "own CRS: default options (resolution auto, no shape, default anchor, tight False, tol 0.01) => the same object or "
         "an equal GeoBox, also for a rotated source; when the source object itself comes back for non-default "
-        "tol/tight/'same' nothing is demanded (recorded as own:returned-source)",
+        "tol/tight/'same' nothing is demanded (recorded as own:returned-source); own CRS with another anchor, 'fit', an "
+        "explicit resolution or a shape request is judged by every general clause",
         "utm: result EPSG in 32601..32660 / 32701..32760; hemisphere as requested for -n/-s; the zone's area of use "
         "overlaps the raster's lon/lat box in longitude and (for plain 'utm') in latitude",
         "xarray slice: the raster is the GeoBox xarray hands back (.odc.geobox); its registration is C09's subject",
